@@ -68,11 +68,15 @@ def source(rng, xr, exact=False):
         specs.append(gen.spectrum(rng, f, th, cls)[0])
     A = np.array(specs).reshape(tuple(lsizes) + (nf, len(th)))
     x = gen.make_da(A, f, th, lnames, lsizes)
-    stored = str(rng.choice(["sorted", "sorted", "rolled", "reversed", "shuffled", "dup360"]))
+    stored = str(rng.choice(["sorted", "sorted", "rolled", "seam_first", "reversed", "reversed_seam_first", "shuffled", "dup360"]))
     if stored == "rolled":
         x = x.roll(dir=int(rng.integers(1, len(th))), roll_coords=True)
+    elif stored == "seam_first":
+        x = x.roll(dir=1, roll_coords=True)                      # [last, first, second, ...]: the seam between the first two stored labels
     elif stored == "reversed":
         x = x.isel(dir=slice(None, None, -1))
+    elif stored == "reversed_seam_first":
+        x = x.isel(dir=slice(None, None, -1)).roll(dir=1, roll_coords=True)      # [first, last, second-last, ...]: descending, seam first
     elif stored == "shuffled":
         x = x.isel(dir=rng.permutation(len(th)))
     elif stored == "dup360":
